@@ -24,7 +24,8 @@ pub fn generate_optimization_report(
     optimizations.sort_by_key(|(target, _)| format!("{:?}", target));
 
     for optimization in optimizations {
-        if optimization.1.len() > 0 {
+        //A pattern is only listed if it has at least one line to show (an entry may carry an empty line set)
+        if optimization.1.iter().any(|(_, lines)| !lines.is_empty()) {
             let optimization_target = optimization.0;
             //List the files in a fixed order, independent of the order in which they were discovered
             let mut matches = optimization.1;
